@@ -387,7 +387,9 @@ pub fn run_multi(files: &[FileSrc], modes: &[FMode], skip: &[bool], full: bool) 
     out.diags.sort();
 
     for (k, p) in parsers.iter().enumerate() {
-        if skip[k] {
+        // the CLI never emits when the analysis reported an error (and the emitter is entitled to
+        // `unreachable!()` on unresolved references)
+        if skip[k] || out.has_error {
             continue;
         }
         if let Some(p) = p {
@@ -642,6 +644,64 @@ pub fn check_multi(files: &[FileSrc], order: &[usize], cap_order: &[usize], rest
     (judge(&a, b, perturb), frag.len())
 }
 
+/// Does `text` mention two distinct `$sv::` members with the same leaf name in different `$sv` scopes?
+pub fn sv_same_leaf_different_scope(text: &str) -> bool {
+    let mut by_leaf: BTreeMap<String, BTreeSet<String>> = BTreeMap::new();
+    let mut rest = text;
+    while let Some(k) = rest.find("$sv::") {
+        let after = &rest[k + 5..];
+        let end = after.find(|c: char| !(c.is_alphanumeric() || c == '_' || c == ':' || c == '#')).unwrap_or(after.len());
+        let path = after[..end].trim_end_matches(':');
+        let segs: Vec<&str> = path.split("::").collect();
+        // every prefix names a `$sv` member too (`$sv::p::x` registers `p` and `p::x`)
+        for n in 1..=segs.len() {
+            by_leaf.entry(segs[n - 1].to_string()).or_default().insert(segs[..n].join("::"));
+        }
+        rest = &after[end..];
+    }
+    by_leaf.values().any(|v| v.len() > 1)
+}
+
+/// The file set changes between capture and restore: F's fragment is captured as the LAST file of
+/// `files` (so whatever earlier files registered first shadows F's own inserts), then file `e` is
+/// removed (or replaced by an unrelated stub) and F is restored at the last (or first) position of the
+/// changed set S'.  Must equal F parsed at that position in S'.
+pub fn check_changed(files: &[FileSrc], f: usize, e: usize, stub: bool, last: bool, full: bool, perturb: bool) -> PairOutcome {
+    let n = files.len();
+    let cap = match run_fresh(order_with(files, f, n - 1), n - 1, FMode::Parse, false) {
+        Ok(x) => x,
+        Err(p) => return PairOutcome::BaselinePanic(format!("{}: {}", p.location, p.message)),
+    };
+    if let Some(e) = cap.parse_error {
+        return PairOutcome::Skipped(e);
+    }
+    let bytes = match &cap.capture {
+        None => return PairOutcome::NotCacheable,
+        Some(Err(e)) => return PairOutcome::CaptureRefused(e.clone()),
+        Some(Ok(b)) => Arc::new(b.clone()),
+    };
+    let mut changed: Vec<FileSrc> = vec![];
+    let mut f2 = 0;
+    for (k, x) in files.iter().enumerate() {
+        if k == e {
+            if stub {
+                changed.push(FileSrc { name: x.name.clone(), text: format!("module StubOfEditedFile{k} {{}}\n") });
+            }
+            continue;
+        }
+        if k == f {
+            f2 = changed.len();
+        }
+        changed.push(x.clone());
+    }
+    let p = if last { changed.len() - 1 } else { 0 };
+    let a = match run_fresh(order_with(&changed, f2, p), p, FMode::Parse, full) {
+        Ok(x) => x,
+        Err(pi) => return PairOutcome::BaselinePanic(format!("{}: {}", pi.location, pi.message)),
+    };
+    judge(&a, run_fresh(order_with(&changed, f2, p), p, FMode::Restore(bytes), full), perturb)
+}
+
 fn judge(a_j: &RunOut, b: Result<RunOut, PanicInfo>, perturb: bool) -> PairOutcome {
     match b {
         Err(p) => PairOutcome::Diffs(vec![Diff { signature: panic_sig(&p), what: format!("panic with F restored (none with F parsed) at {}: {}", p.location, trunc(&p.message, 300)) }]),
@@ -851,6 +911,10 @@ struct CaseOut {
     restores_compared_i_ne_j: u64,
     multi_compared: u64,
     multi_files_restored: u64,
+    changed_compared: u64,
+    changed_sv_same_leaf: u64,
+    /// (signature, what, f, e, stub, last)
+    bad_changed: Vec<(String, String, usize, usize, bool, bool)>,
     /// (signature, what, order, cap_order, restored)
     bad_multi: Vec<(String, String, Vec<usize>, Vec<usize>, Vec<usize>)>,
     restore_err: BTreeMap<String, u64>,
@@ -975,6 +1039,43 @@ fn run_case(set: &FileSet, rng: &mut Rng, full: bool, perturb: bool, stale_fragm
             }
         }
     }
+    // the file set changes between the cold build (capture) and the warm build (restore)
+    if n >= 2 {
+        for &f in &fs {
+            for e in 0..n {
+                if e == f {
+                    continue;
+                }
+                let (stub, last) = (rng.bool(), rng.chance(3, 4));
+                match check_changed(files, f, e, stub, last, full, perturb) {
+                    o @ (PairOutcome::Equal | PairOutcome::Diffs(_)) => {
+                        out.changed_compared += 1;
+                        if sv_same_leaf_different_scope(&files[f].text) && sv_same_leaf_different_scope(&files[e].text) {
+                            out.changed_sv_same_leaf += 1;
+                        }
+                        if let PairOutcome::Diffs(d) = o {
+                            for x in d {
+                                out.bad_changed.push((x.signature, x.what, f, e, stub, last));
+                            }
+                        }
+                    }
+                    PairOutcome::RestoreErr(er) => *out.restore_err.entry(norm_reason(&er)).or_default() += 1,
+                    PairOutcome::BaselinePanic(m) => {
+                        out.baseline_panics += 1;
+                        if out.baseline_panic_notes.len() < 2 {
+                            out.baseline_panic_notes.push(format!(
+                                "analyzer panics without any restore at {} (file set with {} {})",
+                                trunc(&m, 200),
+                                files[e].name,
+                                if stub { "replaced by a stub" } else { "removed" }
+                            ));
+                        }
+                    }
+                    _ => {}
+                }
+            }
+        }
+    }
     // several files restored in one build (what a warm CLI build does), fragments from a cold build
     // with another file order
     for _ in 0..2 {
@@ -1028,6 +1129,19 @@ pub fn main(args: Args) {
         let v: Json = serde_json::from_str(&std::fs::read_to_string(rp).expect("replay file")).unwrap();
         let c = &v["case"];
         let files = files_from_json(&c["files"]);
+        if c.get("changed").is_some() {
+            let ch = &c["changed"];
+            run.eval();
+            match check_changed(&files, ch["f"].as_u64().unwrap() as usize, ch["e"].as_u64().unwrap() as usize, ch["stub"].as_bool().unwrap(), ch["last"].as_bool().unwrap(), full, perturb) {
+                PairOutcome::Diffs(d) => {
+                    for x in d {
+                        run.violation(&format!("changed-set:{}", x.signature), &x.what, c.clone());
+                    }
+                }
+                other => println!("replay outcome: {other:?}"),
+            }
+            run.finish(&[]);
+        }
         if c.get("multi").is_some() {
             let list = |k: &str| -> Vec<usize> { c["multi"][k].as_array().unwrap().iter().map(|x| x.as_u64().unwrap() as usize).collect() };
             run.eval();
@@ -1128,6 +1242,43 @@ pub fn main(args: Args) {
             {
                 run2.sample(s);
             }
+            run2.count("restore_in_changed_file_set", o.changed_compared as i64);
+            run2.count("sv_members_same_leaf_different_scope", o.changed_sv_same_leaf as i64);
+            if set.files.iter().filter(|f| sv_same_leaf_different_scope(&f.text)).count() >= 2 {
+                run2.count("file_sets_with_two_files_sharing_same_leaf_sv_members", 1);
+            }
+            for (sig, what, f, e, stub, last) in &o.bad_changed {
+                run2.count("differences_observed", 1);
+                let sig = &format!("changed-set:{sig}");
+                if !REPORTED.lock().unwrap().insert(sig.clone()) {
+                    continue;
+                }
+                // drop files that are neither F nor E while the difference persists
+                let (mut files, mut f, mut e) = (set.files.clone(), *f, *e);
+                let mut k = 0;
+                while k < files.len() {
+                    if k == f || k == e {
+                        k += 1;
+                        continue;
+                    }
+                    let mut cand = files.clone();
+                    cand.remove(k);
+                    let (nf, ne) = (if k < f { f - 1 } else { f }, if k < e { e - 1 } else { e });
+                    if matches!(check_changed(&cand, nf, ne, *stub, *last, full, false), PairOutcome::Diffs(d) if d.iter().any(|x| sig.ends_with(&x.signature))) {
+                        files = cand;
+                        f = nf;
+                        e = ne;
+                    } else {
+                        k += 1;
+                    }
+                }
+                run2.violation(
+                    sig,
+                    &format!("{what} [F = {} captured as the last of {} files, then {} {} and F restored at the {} position; origin {}]",
+                        files[f].name, files.len(), files[e].name, if *stub { "replaced by an unrelated stub" } else { "removed" }, if *last { "last" } else { "first" }, o.origin),
+                    json!({"files": files_json(&files), "changed": {"f": f, "e": e, "stub": stub, "last": last}, "origin": o.origin, "case_index": case}),
+                );
+            }
             run2.count("multi_restores_compared", o.multi_compared as i64);
             run2.count("multi_restores_files_restored", o.multi_files_restored as i64);
             let mut seen = BTreeSet::new();
@@ -1204,6 +1355,8 @@ pub fn main(args: Args) {
         ("restores_compared", q(300)),
         ("restores_compared_other_position", q(200)),
         ("multi_restores_compared", q(20)),
+        ("restore_in_changed_file_set", q(60)),
+        ("sv_members_same_leaf_different_scope", q(12)),
         ("dumps_compared", q(5_000)),
         ("sv_files_compared", q(800)),
         ("restored_symbols", q(5_000)),
